@@ -222,6 +222,22 @@ def replay_case(exe, section, tier, idx, env, cwd, timeout):
         return "timeout", (e.stdout or b"").decode(errors="replace")
 
 
+def replay_with_history(exe, section, tier, idx, shard, nshards, env, cwd, timeout):
+    """Re-runs the shard's own case sequence up to and including case idx (for findings that depend on state
+    carried over from earlier calls in the same process).  Returns the list of violations reported for idx."""
+    out = os.path.join(cwd, "replay_upto_%s_%d.json" % (section, idx))
+    argv = [exe, "--section", section, "--tier", tier, "--shard", str(shard), "--nshards", str(nshards), "--start", "0", "--upto", str(idx), "--out", out]
+    try:
+        subprocess.run(argv, stdout=subprocess.DEVNULL, stderr=subprocess.DEVNULL, env=env, cwd=cwd, timeout=timeout)
+        res = json.load(open(out))
+    except Exception:
+        return []
+    finally:
+        if os.path.exists(out):
+            os.unlink(out)
+    return [v for v in res.get("violations", []) if v["idx"] == idx]
+
+
 def run_sections(pid, exe, tier, outdir, deadline, env, only_sections=None):
     lst = subprocess.run([exe, "--list", "--tier", tier], stdout=subprocess.PIPE, env=env, check=True).stdout.decode().split("\n")
     jobs = []
@@ -354,10 +370,17 @@ def main():
         shutil.rmtree(outdir, ignore_errors=True)
         os.makedirs(outdir)
         env["VF_OUTDIR"] = outdir
-        rc, out = replay_case(exe, rp["section"], rp["tier"], rp["idx"], env, outdir, 3600)
-        print(out)
+        if rp.get("mode") == "upto":
+            again = replay_with_history(exe, rp["section"], rp["tier"], rp["idx"], rp.get("shard", 0), rp.get("nshards", 1), env, outdir, 3600)
+            for a in again:
+                print("FAIL %s: %s" % (a["key"], a["desc"]))
+            print("(history-dependent finding: cases 0..%d of shard %d/%d were re-executed in order)" % (rp["idx"], rp.get("shard", 0), rp.get("nshards", 1)))
+            failed = bool(again)
+        else:
+            rc, out = replay_case(exe, rp["section"], rp["tier"], rp["idx"], env, outdir, 3600)
+            print(out)
+            failed = rc != 0
         print("expected finding key:", rp["key"])
-        failed = rc != 0
         print("REPLAY", "reproduces (violation)" if failed else "does not reproduce (passes)")
         shutil.rmtree(outdir, ignore_errors=True)
         return 1 if failed else 0
@@ -427,7 +450,8 @@ def main():
                 key = "%s:%s:%s" % (pid, j.section, v["key"])
                 cur = viols.get(key)
                 if cur is None or v["idx"] < cur["idx"]:
-                    viols[key] = dict(desc=v["desc"], idx=v["idx"], count=v["count"] + (cur["count"] if cur else 0), section=j.section, variant=j.variant, kind="oracle")
+                    viols[key] = dict(desc=v["desc"], idx=v["idx"], count=v["count"] + (cur["count"] if cur else 0), section=j.section, variant=j.variant, kind="oracle",
+                                      shard=j.shard, nshards=j.nshards)
                 else:
                     cur["count"] += v["count"]
         for c in j.crashes:
@@ -495,8 +519,16 @@ def main():
             elif rc != 0 and "FAIL " in out:
                 v["confirmed"] = "replayed"
             else:
-                engine_errors.append("violation %s (case %d) did not reproduce in isolation: rc=%s" % (key, v["idx"], rc))
-                v["confirmed"] = "no"
+                # not reproducible alone: does it reproduce after the cases that preceded it in its shard?  Then the
+                # code under test carries hidden state between calls, which is itself what the case exposes.
+                again = replay_with_history(exes[v["variant"]], v["section"], tier, v["idx"], v.get("shard", 0), v.get("nshards", 1), env, outdir, max(600, stall * 10))
+                if any(a["key"] == short for a in again):
+                    v["confirmed"] = "replayed-with-history"
+                    v["mode"] = "upto"
+                    v["desc"] += " :: HISTORY-DEPENDENT: passes when executed alone in a fresh process, fails (reproducibly) after the preceding cases of shard %d/%d, i.e. the result depends on state left behind by earlier calls" % (v.get("shard", 0), v.get("nshards", 1))
+                else:
+                    engine_errors.append("violation %s (case %d) did not reproduce in isolation nor with its shard history: rc=%s" % (key, v["idx"], rc))
+                    v["confirmed"] = "no"
     viols = {k: v for k, v in viols.items() if v.get("confirmed") != "no"}
 
     # ---- known findings, replay files, output ---------------------------------------------------
@@ -512,6 +544,7 @@ def main():
         v = viols[key]
         rp = os.path.join(ROOT, "replays", "%s-%s.json" % (pid, sanitize(key.split(":", 1)[1])))
         json.dump(dict(property=pid, harness=cfg["harness"], variant=v["variant"], section=v["section"], tier=tier, idx=v["idx"], key=key,
+                       mode=v.get("mode", "only"), shard=v.get("shard", 0), nshards=v.get("nshards", 1),
                        desc=v["desc"], count=v["count"], stderr=v.get("stderr", "")), open(rp, "w"), indent=1)
         print("VIOLATION property=%s replay=%s" % (pid, rp))
         print("  key=%s count=%d :: %s" % (key, v["count"], v["desc"][:700]))
